@@ -6,7 +6,7 @@
 
 package casketfile
 
-//@ unit dispenser_api frames=on props=C10,C11 verify_pure=on nilchecks=on filter=`casketfile\.Dispenser\)\.(Next|NextArg|NextLine|nextOnSameLine|NextBlock|NextBlockNesting|Nesting|Val|Line|File|Args|RemainingArgs|ArgErr|SyntaxErr|EOFErr|Err|Errf|numLineBreaks|isNewLine|isNextOnNewLine)$`
+//@ unit dispenser_api frames=on props=C10,C11,C09 verify_pure=on nilchecks=on filter=`casketfile\.Dispenser\)\.(Next|NextArg|NextLine|nextOnSameLine|NextBlock|NextBlockNesting|Nesting|Val|Line|File|Args|RemainingArgs|ArgErr|SyntaxErr|EOFErr|Err|Errf|numLineBreaks|isNewLine|isNextOnNewLine)$`
 //@ // The token cursor API every directive setup is written against. Proved here, imported (`use`) by the setup sweeps.
 //@ // Safety needs no representation invariant; progress: every method leaves the cursor where it was or further on,
 //@ // and the advancing ones report true only after moving it forward (what the automatic loop variants rely on).
@@ -115,7 +115,7 @@ package casketfile
 //@   requires d != nil
 //@   ensures result != nil
 
-//@ unit parser_chain frames=on props=C10,C11 filter=`parser\)\.(doImport|directive|directives|blockContents|addresses|snippetTokens)$`
+//@ unit parser_chain frames=on props=C10,C11,C09 filter=`parser\)\.(doImport|directive|directives|blockContents|addresses|snippetTokens)$`
 //@ use casketfile/contracts_verif.go:dispenser_api
 
 //@ func (*parser).snippetTokens
@@ -163,7 +163,7 @@ package casketfile
 //@   ensures [cursor_ok] p.cursor >= 0
 //@   loop 1 invariant p.cursor >= 0
 
-//@ unit lexer_next props=C10 filter=`casketfile\.lexer\)\.next$`
+//@ unit lexer_next props=C10,C09 filter=`casketfile\.lexer\)\.next$`
 //@ ghost remaining int
 //@ // ghost: number of line feeds the reader has handed out so far (advanced by the ReadRune contract only)
 //@ ghost nlRead int
